@@ -84,17 +84,16 @@ def pause (s : State) (r : String) : State × Res :=
   | some j => if j.suspended then (s, .suspended) else (s.putJob r { j with suspended := true }, .ok)
 
 /-- `ResumeSchedule`: quartz removes the job, asks the trigger for the next fire time and pushes
-    it back; a RunOnceTrigger has expired at scheduling time, so the one-shot job is LOST -/
+    it back.  Since c88f7fc ScheduleOnce uses goakt's own `onceTrigger`, which keeps answering until
+    its single fire instant has been consumed, so a paused one-shot resumes like any other schedule
+    (with quartz.RunOnceTrigger the trigger had expired at scheduling time and the job was LOST). -/
 def resume (s : State) (r : String) : State × Res :=
   if !s.started then (s, .notstarted) else
   if !s.keys.contains r then (s, .noref) else
   match s.job r with
   | none => (s, .nojob)
   | some j =>
-    if !j.suspended then (s, .active) else
-    match j.kind with
-    | .once => (s.delJob r, .expired)
-    | _ => (s.putJob r { j with suspended := false }, .ok)
+    if !j.suspended then (s, .active) else (s.putJob r { j with suspended := false }, .ok)
 
 /-- quartz reaches a tick of job `r`: a suspended or absent job does not run; a one-shot job is
     taken off the queue, the others are re-queued -/
